@@ -44,14 +44,14 @@ type Violation struct {
 }
 
 type Out struct {
-	Runs       int64            `json:"runs"`
-	Points     int64            `json:"points"`
-	Sites      map[string]int64 `json:"sites"`
-	Violations []Violation      `json:"violations"`
-	Base       map[string]map[string]string `json:"base"` // spec id -> file -> hash (all-sorted schedule)
-	BaseOutcome map[string]string `json:"baseOutcome"`
-	MaxKeys    int              `json:"maxKeys"`
-	Reduced    int64            `json:"reduced"` // points with more keys than the full-permutation bound
+	Runs        int64                        `json:"runs"`
+	Points      int64                        `json:"points"`
+	Sites       map[string]int64             `json:"sites"`
+	Violations  []Violation                  `json:"violations"`
+	Base        map[string]map[string]string `json:"base"` // spec id -> file -> hash (all-sorted schedule)
+	BaseOutcome map[string]string            `json:"baseOutcome"`
+	MaxKeys     int                          `json:"maxKeys"`
+	Reduced     int64                        `json:"reduced"` // points with more keys than the full-permutation bound
 }
 
 type runResult struct {
